@@ -77,78 +77,76 @@ Section Total.
 
   Notation scale := (scale m rnd).
 
-  Lemma heat_cell_scaled v mn mx : no_wrap mn mx ->
-    exists s, heat_write col uni rnd (scale v mn mx) = Ok s /\ str_len col s = 1 /\ closed col s.
+  Lemma heat_cell_scaled v mn mx : exists s, heat_write col uni rnd (scale v mn mx) = Ok s /\ str_len col s = 1 /\ closed col s.
   Proof.
-    intros H. apply (heat_write_cell rnd rnd_mono rnd_0 rnd_int).
-    apply (scale_unit m rnd m_mono rnd_mono rnd_0 rnd_1 rnd_pos). assumption.
+    apply (heat_write_cell rnd rnd_mono rnd_0 rnd_int).
+    apply (scale_unit m rnd m_mono rnd_mono rnd_0 rnd_1 rnd_pos).
   Qed.
 
   (* one heat cell per value *)
-  Lemma heat_cells mn mx : no_wrap mn mx -> forall vals,
+  Lemma heat_cells mn mx : forall vals,
     exists cells, rconcat (fun v => heat_write col uni rnd (scale v mn mx)) vals = Ok cells /\
                   str_len col cells = lenZ vals /\ closed col cells.
   Proof.
-    intros H. induction vals as [|v r [cs [E [L C]]]]; cbn [rconcat].
+    induction vals as [|v r [cs [E [L C]]]]; cbn [rconcat].
     - exists []. split. reflexivity. split. apply str_len_nil. apply closed_nil.
-    - destruct (heat_cell_scaled v mn mx H) as [s [Es [Ls Cs]]]. rewrite Es, E. cbn [rbind].
+    - destruct (heat_cell_scaled v mn mx) as [s [Es [Ls Cs]]]. rewrite Es, E. cbn [rbind].
       eexists. split. reflexivity. split.
       + rewrite str_len_app by assumption. rewrite Ls, L. unfold lenZ. simpl length. lia.
       + apply closed_app; assumption.
   Qed.
 
   (* one spark cell per value *)
-  Lemma spark_cells mn mx : no_wrap mn mx -> forall vals,
+  Lemma spark_cells mn mx : forall vals,
     exists cells, rconcat (fun v => spark_write uni rnd (scale v mn mx)) vals = Ok cells /\
                   lenZ cells = lenZ vals.
   Proof.
-    intros H. induction vals as [|v r [cs [E L]]]; cbn [rconcat].
+    induction vals as [|v r [cs [E L]]]; cbn [rconcat].
     - exists []. split; reflexivity.
     - destruct (spark_write_cell rnd rnd_mono rnd_0 rnd_int uni (scale v mn mx)
-                  (scale_unit m rnd m_mono rnd_mono rnd_0 rnd_1 rnd_pos v mn mx H)) as [c Ec].
+                  (scale_unit m rnd m_mono rnd_mono rnd_0 rnd_1 rnd_pos v mn mx)) as [c Ec].
       rewrite Ec, E. cbn [rbind]. eexists. split. reflexivity.
       unfold lenZ in *. simpl length. lia.
   Qed.
 
   (* C14_rows_one_cell_per_column, heatmap: name, padding of at least one blank, then exactly one
      cell per value *)
-  Theorem heat_row_cells w mn mx name vals : no_wrap mn mx ->
+  Theorem heat_row_cells w mn mx name vals :
     exists cells, heat_row col uni m rnd w mn mx name vals =
                     Ok (Z.max w (str_len col name),
                         wrap col col_Yellow name ++ rep (Z.max w (str_len col name) - str_len col name + 1) SP ++ cells) /\
                   str_len col cells = lenZ vals.
   Proof.
-    intros H. unfold heat_row. destruct (heat_cells mn mx H vals) as [cs [E [L _]]].
+    unfold heat_row. destruct (heat_cells mn mx vals) as [cs [E [L _]]].
     rewrite E. cbn [rbind]. exists cs. split. reflexivity. assumption.
   Qed.
 
-  Lemma legend_items_ok mn mx : no_wrap mn mx -> forall ks first,
+  Lemma legend_items_ok mn mx : forall ks first,
     okb (legend_items col uni m rnd fmt first ks mn mx).
   Proof.
-    intros H. induction ks as [|k r IH]; intros first; cbn [legend_items]. apply okb_Ok.
-    destruct (heat_cell_scaled k mn mx H) as [s [Es _]]. rewrite Es. cbn [rbind].
+    induction ks as [|k r IH]; intros first; cbn [legend_items]. apply okb_Ok.
+    destruct (heat_cell_scaled k mn mx) as [s [Es _]]. rewrite Es. cbn [rbind].
     apply rbind_ok. apply IH. intros. apply okb_Ok.
   Qed.
 
-  Lemma heat_rows_ok mn mx cc : no_wrap mn mx -> forall rows i w tm,
+  Lemma heat_rows_ok mn mx cc : forall rows i w tm,
     okb (heat_rows col uni m rnd i w mn mx cc rows tm).
   Proof.
-    intros H. induction rows as [|r rest IH]; intros i w tm; cbn [heat_rows]. apply okb_Ok.
-    destruct (heat_row_cells w mn mx (r_name r) (firstn cc (r_vals r)) H) as [cs [E _]].
+    induction rows as [|r rest IH]; intros i w tm; cbn [heat_rows]. apply okb_Ok.
+    destruct (heat_row_cells w mn mx (r_name r) (firstn cc (r_vals r))) as [cs [E _]].
     rewrite E. cbn [rbind]. apply IH.
   Qed.
 
   (* C14_render_total, heatmap: for every aggregator state and limits the table is written
      completely (no panic, header fuel not exhausted) *)
-  Theorem heat_write_table_total rlim clim h tm a : no_wrap (a_min a) (a_max a) ->
-    exists st, heat_write_table col uni m rnd keys fmt rlim clim h tm a = Some (Ok st).
+  Theorem heat_write_table_total rlim clim h tm a :     exists st, heat_write_table col uni m rnd keys fmt rlim clim h tm a = Some (Ok st).
   Proof.
-    intros H. unfold heat_write_table, heat_legend.
-    destruct (legend_items_ok (a_min a) (a_max a) H (keys (a_min a) (a_max a)) true) as [l El].
+    unfold heat_write_table, heat_legend.
+    destruct (legend_items_ok (a_min a) (a_max a) (keys (a_min a) (a_max a)) true) as [l El].
     rewrite El. cbn [rbind].
     destruct (heat_header_ok col (hm_w h) clim (a_cols a)) as [hdr [Eh _]]. rewrite Eh.
     match goal with |- context [heat_rows ?c ?u ?mm ?r ?i ?w ?mn ?mx ?cc ?rows ?t] =>
-      destruct (heat_rows_ok mn mx cc H rows i w t) as [[w' tm2] Er]; rewrite Er end.
+      destruct (heat_rows_ok mn mx cc rows i w t) as [[w' tm2] Er]; rewrite Er end.
     destruct (_ <? _)%nat; eexists; reflexivity.
   Qed.
 
@@ -172,18 +170,17 @@ Section Total.
   Qed.
 
   (* ---------- spark ---------- *)
-  Lemma spark_rows_ok mn mx k : no_wrap mn mx -> forall rows i st,
+  Lemma spark_rows_ok mn mx k : forall rows i st,
     okb (spark_rows col uni m rnd fmt i mn mx k rows st).
   Proof.
-    intros H. induction rows as [|r rest IH]; intros i st; cbn [spark_rows]. apply okb_Ok.
-    destruct (spark_cells mn mx H (last_cols k (r_vals r))) as [cs [E _]]. rewrite E. cbn [rbind]. apply IH.
+    induction rows as [|r rest IH]; intros i st; cbn [spark_rows]. apply okb_Ok.
+    destruct (spark_cells mn mx (last_cols k (r_vals r))) as [cs [E _]]. rewrite E. cbn [rbind]. apply IH.
   Qed.
   (* #16 repaired: also with no displayed column *)
-  Theorem spark_write_table_total rlim clim st a : no_wrap (a_min a) (a_max a) ->
-    okb (spark_write_table col uni m rnd fmt rlim clim st a).
+  Theorem spark_write_table_total rlim clim st a :     okb (spark_write_table col uni m rnd fmt rlim clim st a).
   Proof.
-    intros H. unfold spark_write_table. cbv zeta.
-    apply rbind_ok. apply spark_rows_ok. assumption.
+    unfold spark_write_table. cbv zeta.
+    apply rbind_ok. apply spark_rows_ok.
     intros st2. destruct (_ <? _)%nat; apply okb_Ok.
   Qed.
 
